@@ -14,3 +14,6 @@ package lang
 //@ contract (lang.DiagnosticsMap).Extend (dm, diagMap)
 //@   requires dm != nil
 //@   modifies dm[*]
+
+// Address steps are immutable values (a name or a cty key); their String() is a function of the value.
+//@ pure-method lang.AddressStep.String
